@@ -32,8 +32,12 @@ def gen_arena(rng, faults):
             lines.append('q')
         elif r < 0.92:
             lines.append('owns %d' % rng.choice([65536, 65584, 65600, 66000, 70000, 65568 + bs - 1, 65568 + bs]))
-        elif r < 0.96 and faults and src in ('grow', 'fixed'):
-            lines.append('fail %d' % rng.randint(1, 2))
+        elif r < 0.96 and faults and src in ('grow', 'fixed', 'virtual'):
+            lines.append('fail %d' % rng.randint(1, 2))     # the k-th next upstream call (virtual source: the k-th next commit) fails
+        elif r < 0.98 and src in ('grow', 'fixed'):
+            lines.append('mfb')         # move assignment from a busy arena over a second, distinguishable source
+            if src == 'grow':
+                nab += 2
         else:
             lines.append('mv')
             if rng.random() < 0.5:
@@ -57,10 +61,16 @@ def bracket_oracle(log):
         t = parts[1].split()
         had_cache = cache
         i = 0
+        # a move assignment from an arena over a second source: that arena's blocks form a new bracket sequence, the
+        # target's old blocks are all returned (to the old source, in order) during the assignment
+        mfb = parts[0].split()[:1] == ['mfb'] and 'skipped' not in parts[0]
+        held2 = []
         while i < len(t):
             if t[i] == 'U+':
                 if t[i + 3] == 'fail':
                     stats['failed'] += 1
+                elif mfb:
+                    held2.append((int(t[i + 3]), int(t[i + 1]), int(t[i + 2]))); stats['up'] += 1
                 else:
                     held.append((int(t[i + 3]), int(t[i + 1]), int(t[i + 2]))); stats['up'] += 1
                     if had_cache > 0 and parts[0].split()[:1] == ['ab']:
@@ -68,7 +78,9 @@ def bracket_oracle(log):
                 i += 4
             elif t[i] == 'U-':
                 b = (int(t[i + 3]), int(t[i + 1]), int(t[i + 2])); stats['down'] += 1
-                if not held:
+                if mfb and held2 and held2[-1] == b:
+                    held2.pop()
+                elif not held:
                     msgs.append('block %s returned but nothing is held' % (b,))
                 elif held[-1] != b:
                     if b in held:
@@ -80,6 +92,10 @@ def bracket_oracle(log):
                 i += 4
             else:
                 i += 1
+        if mfb:
+            if held:
+                msgs.append('move assignment: %d block(s) of the target were not returned to its source: %s' % (len(held), held[:3]))
+            held = held2
         if len(parts) > 2 and 'cache=' in parts[2]:
             cache = int(parts[2].split('cache=')[1].split()[0])
     if held:
